@@ -12,7 +12,7 @@ from __future__ import annotations
 
 import itertools
 
-from engine.absint import HI, LO, TOP, Interp, Obj, Unsupported
+from engine.absint import HI, LO, TOP, Interp, Obj, Unsupported, _Raise
 from engine.loader import AnalysisError
 
 # type -> how the validator recognises a well-typed value
@@ -179,3 +179,61 @@ def rule_h(ctx):
         ctx.repo.cls(q)
         run_type(ctx, q)
     ctx.assumptions.append("R01.h: isinstance/_is_number/callable are abstract boolean inputs (their library semantics are trusted); other constraints are switched off")
+
+
+def list_item_model(ctx, rule):
+    """List._validate_item_type interpreted abstractly: item_type given, is_instance True / False, lists of one to three items
+    in which the ill-typed item (an instance of another class / a class that is not a subclass / an instance where a
+    class is wanted) sits at every position.  Specification: accepted iff every item is well typed -- each item is
+    checked, whatever came before it (with is_instance=False all items are classes and share one `type`)."""
+    q = "param.parameters.List"
+    f = ctx.hier.resolve(q, "_validate_item_type")
+    problems, n = [], 0
+    for is_instance in (True, False):
+        shapes = [["ok"], ["bad"], ["ok", "bad"], ["bad", "ok"], ["ok", "ok"], ["ok", "ok", "bad"], ["ok", "bad", "ok"]]
+        if not is_instance:
+            shapes += [["ok", "notaclass"], ["notaclass"]]
+        for shape in shapes:
+            TYPE = "<type type>"
+            items = []
+            for i, k in enumerate(shape):
+                o = Obj("item%d_%s" % (i, k), __kindtag__=k)
+                items.append(o)
+            item_type = Obj("declared_item_type")
+            me = Obj("List", allow_None=False, name="l", owner=None)
+
+            def hook(fn, args, kwargs):
+                subject = args[0] if args else None
+                if fn == "isinstance" and len(args) == 2 and args[1] is item_type:
+                    return subject.attrs["__kindtag__"] == "ok"
+                if fn == "issubclass" and len(args) == 2 and args[1] is item_type:
+                    if subject.attrs["__kindtag__"] == "notaclass":
+                        raise _Raise("TypeError")
+                    return subject.attrs["__kindtag__"] == "ok"
+                if fn == "type" and len(args) == 1 and isinstance(subject, Obj):
+                    if is_instance:
+                        return Obj("class_of_%s" % subject.attrs["__kindtag__"], __eqclass__="cls:" + subject.attrs["__kindtag__"])
+                    return "<type type>" if subject.attrs["__kindtag__"] != "notaclass" else Obj("some_class")
+                if fn == "_validate_error_prefix":
+                    return "List parameter"
+                if fn in ("repr", "str", "obj_display"):
+                    return "x"
+                return NotImplemented
+            it = Interp(ctx.hier, dyn=q, inline=lambda m: False, call_hook=hook, globals={"type": "<type type>"})
+            try:
+                outs = it.run_all(f, {f.params[0]: me, f.params[1]: list(items), f.params[2]: item_type, f.params[3]: is_instance})
+            except Unsupported as e:
+                raise AnalysisError("absint cannot interpret List._validate_item_type: %s -- %s cannot decide" % (e, rule))
+            if len(outs) != 1 or outs[0].imprecise:
+                raise AnalysisError("absint imprecise on List._validate_item_type (%s) -- %s cannot decide" % (outs[0].notes[:2] if outs else "no outcome", rule))
+            n += 1
+            want = all(k == "ok" for k in shape)
+            got = outs[0].kind == "return"
+            if got != want:
+                problems.append("List(item_type=T, is_instance=%s) %s the list [%s]" % (is_instance, "accepts" if got else "rejects", ", ".join(
+                    {"ok": "a well-typed item", "bad": "an item of another type" if is_instance else "a class that is not a subclass of T", "notaclass": "an instance (not a class)"}[k] for k in shape)))
+    ctx.abstract_cases += n
+    if problems:
+        ctx.fail(rule, f, f.node, "list-item model: %s (%d disagreeing case(s))" % (problems[0], len(problems)), key=f.qualname + "::list-item-model")
+    else:
+        ctx.ok(rule, f, f.node, "list-item model, %d abstract cases: a list is accepted iff every item has the declared type (instances / subclasses), whatever its position" % n)
